@@ -4,5 +4,5 @@
 # remove with: rm -rf <dir> /verif/.build/*-$(echo -n <dir> | sha1sum | cut -c1-8)
 set -e
 rsync -a --exclude='*.o' --exclude='*.a' --exclude='*.lo' --exclude='*.la' --exclude='.libs' --exclude='.git' \
-  --exclude='/src/squid' --exclude='/src/tests/test*' --exclude='autom4te.cache' /repo/ "$1"/
+  --exclude='/src/squid' --exclude='/src/tests/test*' --exclude='autom4te.cache' --exclude='*.log' --exclude='*.trs' /repo/ "$1"/ 2>/dev/null || [ $? = 24 ]   # 24: files vanished (a test run in /repo)
 echo "$1"
